@@ -29,16 +29,8 @@ def names_in_use(world, app):
     return {r[0] for r in world.reader.execute("SELECT name FROM nameplates WHERE app_id=?", (app,)).fetchall()}
 
 
-def exhaust_choice(acc, world, app, case):
-    """Every outcome of the random choice in the current state, through the real function."""
-    srv = world.server
-    try:
-        ns = srv.get_app(app)
-        fn = ns._find_available_nameplate_id
-    except Exception as e:
-        acc.extra["c04_exhaustive_unavailable"] += 1
-        return
-    used = names_in_use(world, app)
+def choice_outcomes(world, fn):
+    """-> (every outcome of the allocator's random choice in the current state, size of the choice set or 0)"""
     sizes = []
     kr = world.krandom
     try:
@@ -55,6 +47,20 @@ def exhaust_choice(acc, world, app, case):
             outcomes += [fn() for _ in range(50)]
     finally:
         kr.force = None
+    return outcomes, n
+
+
+def exhaust_choice(acc, world, app, case):
+    """Every outcome of the random choice in the current state, through the real function."""
+    srv = world.server
+    try:
+        ns = srv.get_app(app)
+        fn = ns._find_available_nameplate_id
+    except Exception as e:
+        acc.extra["c04_exhaustive_unavailable"] += 1
+        return
+    used = names_in_use(world, app)
+    outcomes, n = choice_outcomes(world, fn)
     acc.extra["c04_choice_states"] += 1
     for name in outcomes:
         acc.ev["c04_choice_outcome"] += 1
